@@ -107,7 +107,7 @@ def check_render(x, prop='C01'):
         return bad
     a = acts(x)
     all_ts = [t for ac in a for t in texts(ac)]
-    if not all(T.is_group(t) for t in all_ts):
+    if not all(T.is_groups(t) for t in all_ts):
         return bad
     want = [(c, eff(texts(ac))) for c, ac in zip(x._s, a)]
     shown0 = None
